@@ -86,6 +86,9 @@ type relay struct {
 	// when there are continuation frames.
 	headerBuffer      bytes.Buffer
 	continuationState continuationState
+	// continuationStream is the stream of the header block in progress while continuationState is
+	// not nil.
+	continuationStream uint32
 
 	// flowMu guards access to flow-control related fields.
 	flowMu               sync.Mutex
@@ -215,6 +218,17 @@ func (r *relay) relayFrames(closing chan bool, sessionDone chan struct{}) error 
 }
 
 func (r *relay) processFrame(f http2.Frame) error {
+	// A header block in progress is continued by CONTINUATION frames on the same stream and by
+	// nothing else. See: https://tools.ietf.org/html/rfc7540#section-6.10
+	if cf, ok := f.(*http2.ContinuationFrame); ok {
+		if r.continuationState == nil || cf.StreamID != r.continuationStream {
+			return fmt.Errorf("unexpected CONTINUATION for stream %d", cf.StreamID)
+		}
+	} else if r.continuationState != nil {
+		return fmt.Errorf("got %v for stream %d; expected CONTINUATION for stream %d",
+			f.Header().Type, f.Header().StreamID, r.continuationStream)
+	}
+
 	var err error
 	switch f := f.(type) {
 	case *http2.DataFrame:
@@ -228,6 +242,7 @@ func (r *relay) processFrame(f http2.Frame) error {
 			r.headerBuffer.Reset()
 			r.headerBuffer.Write(f.HeaderBlockFragment())
 			r.continuationState = &headerContinuation{f.Priority, f.StreamEnded()}
+			r.continuationStream = f.StreamID
 		} else {
 			var headers []hpack.HeaderField
 			headers, err = r.decodeFull(f.HeaderBlockFragment())
@@ -270,6 +285,7 @@ func (r *relay) processFrame(f http2.Frame) error {
 			r.headerBuffer.Reset()
 			r.headerBuffer.Write(f.HeaderBlockFragment())
 			r.continuationState = &pushPromiseContinuation{f.PromiseID}
+			r.continuationStream = f.StreamID
 		} else {
 			var headers []hpack.HeaderField
 			headers, err = r.decodeFull(f.HeaderBlockFragment())
@@ -296,7 +312,9 @@ func (r *relay) processFrame(f http2.Frame) error {
 			if err != nil {
 				return fmt.Errorf("decoding headers for continuation %v: %w", f, err)
 			}
-			err = r.continuationState.complete(r.processor(f.StreamID), headers)
+			state := r.continuationState
+			r.continuationState = nil
+			err = state.complete(r.processor(f.StreamID), headers)
 		}
 	default:
 		err = errors.New("unrecognized frame type")
